@@ -9,8 +9,25 @@ included) gets a distinct value so that no contrast term cancels (core_shell_cyl
 sld_core = sld_shell), every non-SLD, non-orientation parameter whose default 0 switches an effect off gets a
 non-zero value inside its limits (stacked_disks sigma_d, ..._belt_rough sigma) and every count-like parameter
 with default 1 (n_stacking) is 3;
-the volume-parameter moves are applied on top of both.
+the moves are applied on top of both.  Moved are ALL shape parameters, i.e. every scalar parameter that is neither an
+SLD nor an orientation - the volume parameters and the others (paracrystal dnn and d_factor, sigma_d, sigma).
+Aspect inversion: for every pair of shape parameters with the same unit, sets in which their ORDER is inverted
+relative to the base (quick: the two values swapped, on the activated base; thorough: swapped, exactly equal, and
+inverted with ratio 2, on both bases; pairs equal by default get both orders), and every dimensionless ratio
+inverted (v -> 1/v): visits every branch that depends on which of two sizes is larger (prolate/oblate ellipsoids,
+length < radius, side orderings).
+q menu: q*size as above, plus q = {0.7, 1, 1.4, 2, 3} x 2 pi / L for every length L that is not a volume parameter
+(the lattice spacing dnn of the paracrystals sets its own q scale).
 One case = one (model, base, parameter set); the q values are looped inside.
+
+Decidability is graded (why the paracrystals escaped before: at d_factor = 0.06 their 150- and 76-point tables
+differ by 1e-2 ... 0.7 wherever the lattice factor differs from 1, so every such point was inconclusive and the
+only decidable points sat where the lattice factor is 1 to rounding): table disagreement e <= 1e-6 is judged at
+1e-5 + 40 e as before; 1e-6 < e <= 2e-3 is judged too ("decidable-coarse") at the same formula 1e-5 + 40 e (<= 8 %),
+against a reference converged to 1 % of that tolerance.  Together with the d_factor moves this judges bcc/fcc/sc
+around their first lattice peaks, and superball everywhere.  A per-model vacuity guard requires decidable
+non-trivial points for EVERY oriented model (exit 2 otherwise).  A non-finite 1-D value where the average is finite
+is a violation (clause "non-finite").
 
 Oracle: composite Gauss-Legendre average over the FULL sphere (2 panels in cos(alpha) x 4 panels in
 beta for triaxial shapes, 2 panels for shapes of revolution; no symmetry of the model is assumed) of
@@ -40,7 +57,8 @@ TECHNIQUE = ("exhaustive enumeration of an aspect-ratio alphabet x q*size grid o
              "compared with a converged full-sphere Gauss-Legendre average of the model's own Iqac/Iqabc (compiled shim), "
              "restricted to points where the model's own quadrature is converged under a change of its Gauss table")
 RULE = ("all (model, parameter set, q) with parameter sets = defaults, each shape parameter x {small, large} (thorough: "
-        "also x {small^2, large^2} and every pair x {small, large}^2), q*size in 7 steps; non-trivial = decidable point whose I(q) differs from "
+        "also x {small^2, large^2} and every pair x {small, large}^2), every same-unit pair with inverted order, q*size in 7 steps "
+        "+ q in units of 2pi/(non-volume length); non-trivial = decidable point whose I(q) differs from "
         "I(q->0) by > 1 %; points where either quadrature is not converged are counted as inconclusive, never judged")
 ASSUMPTIONS = [
     "the model's own Iqac/Iqabc, reached through wrappers appended to the generated source, define the 2-D intensity "
@@ -52,18 +70,29 @@ ASSUMPTIONS = [
 QSIZE = [0.1, 0.5, 1.0, 2.0, 5.0, 10.0, 20.0]
 FACTORS = [(0.25, 4.0), (0.3, 3.3), (0.2, 5.0), (0.35, 2.8), (0.27, 3.7), (0.22, 4.5), (0.32, 3.1), (0.24, 4.2)]
 QTWEAK = [1.0, 1.07, 0.93, 1.13, 0.88, 1.03, 0.97, 1.1]
-LADDER = {"quick": [24, 48, 96, 192], "thorough": [24, 48, 96, 192, 384]}
+LADDER = {"quick": [12, 24, 48, 96, 192], "thorough": [12, 24, 48, 96, 192, 384]}
 BOUNDS = {
     "quick": {"models": "all 21 oriented models", "parameter_sets": "bases {defaults, activated: all SLDs distinct, zero-default parameters non-zero, counts = 3} x "
-                                "(unchanged + each volume parameter x {1/4, 4}, seed-rotated)",
+                                "(unchanged + each shape parameter, volume or not, x {1/4, 4}, seed-rotated) + on the activated "
+                                "base every same-unit pair swapped and every dimensionless ratio inverted",
+              "q_lattice": "q = {0.7,1,1.4,2,3} x 2pi/L for every non-volume length L", "model_tol_coarse": 2e-3,
               "q*size": QSIZE, "ladder": LADDER["quick"], "ref_tol": 1e-7, "model_tol": 1e-6, "verdict_tol": "1e-5 + 40 * table disagreement"},
     "thorough": {"models": "all 21 oriented models",
-                 "parameter_sets": "bases {defaults, activated} x (unchanged + each volume parameter x {1/16, 1/4, 4, 16} + "
-                                   "every pair of volume parameters x {1/4, 4}^2)",
+                 "parameter_sets": "bases {defaults, activated} x (unchanged + each shape parameter x {1/16, 1/4, 4, 16} + every pair "
+                                   "x {1/4, 4}^2 + every same-unit pair {swapped, equal, inverted ratio 2} + ratios inverted)",
+                 "q_lattice": "q = {0.7,1,1.4,2,3} x 2pi/L for every non-volume length L", "model_tol_coarse": 2e-3,
                  "q*size": QSIZE, "ladder": LADDER["thorough"], "ref_tol": 1e-7, "model_tol": 1e-6, "verdict_tol": "1e-5 + 40 * table disagreement"},
 }
 CASE_TIMEOUT = 900
 REF_TOL, MODEL_TOL, TOL = 1e-7, 1e-6, 1e-5
+# Graded decidability: a point whose two Gauss tables disagree by 1e-6 < e <= MODEL_TOL_COARSE is still judged, with the
+# verdict tolerance TOL + TABLE_GAIN * e that grows with e (<= 8 %) and a reference converged to 1 % of that tolerance.
+# Without it the paracrystal models are only ever judged where their lattice factor is 1 to rounding (q far above the
+# last visible peak), i.e. never on what distinguishes them; gross 1-D/2-D inconsistencies (a different lattice, a
+# swapped axis) are factors, not per cent.
+MODEL_TOL_COARSE = 2e-3
+QLATTICE = [0.7, 1.0, 1.4, 2.0, 3.0]     # q in units of 2 pi / L for every length L that is not a volume parameter (dnn)
+NT_PER_MODEL = {"quick": 6, "thorough": 12}
 TABLE_GAIN = 40.0      # verdict tolerance = TOL + TABLE_GAIN * (relative disagreement of the model's two Gauss tables)
 
 
@@ -82,6 +111,52 @@ def alt_gauss(info):
 
 def volume_pars(info):
     return [p for p in info.parameters.kernel_parameters if p.type == "volume" and p.length == 1]
+
+
+def shape_pars(info):
+    """every scalar parameter that is neither an SLD nor an orientation: volume parameters AND the others (dnn, d_factor,
+    sigma_d, sigma, ...) - all of them are moved"""
+    return [p for p in info.parameters.kernel_parameters
+            if p.type not in ("sld", "orientation", "magnetic") and p.length == 1]
+
+
+def unit_of(p):
+    u = (p.units or "").strip()
+    return "" if u in ("", "None") else u
+
+
+def inversions(info, vals, quick):
+    """
+    aspect inversion: for every pair of shape parameters with the same unit, parameter sets in which their ORDER is
+    inverted relative to the base values (swap; thorough: also exactly equal, and inverted with ratio 2 about the same
+    geometric mean), so that every branch depending on which of two sizes is the larger is visited (prolate/oblate,
+    length < radius, side orderings ...); and every dimensionless ratio-like parameter inverted (v -> 1/v).
+    Returns a list of {name: value}.
+    """
+    out = []
+    pars = [p for p in shape_pars(info) if not is_count(p) and vals[p.name] > 0]
+    inside = lambda p, v: p.limits[0] <= v <= p.limits[1]
+    for p1, p2 in itertools.combinations(pars, 2):
+        if unit_of(p1) != unit_of(p2):
+            continue
+        a, b = float(vals[p1.name]), float(vals[p2.name])
+        menu = []
+        if a != b:
+            menu.append((b, a))
+            if not quick:
+                g = (a * b) ** 0.5
+                menu.append((g, g))
+                menu.append((g * 2 ** 0.5, g / 2 ** 0.5) if a < b else (g / 2 ** 0.5, g * 2 ** 0.5))
+        elif not quick:
+            menu += [(2.0 * a, b), (a, 2.0 * b)]       # equal by default (b2a_ratio = c2a_ratio = 1): both orders
+        for v1, v2 in menu:
+            if inside(p1, v1) and inside(p2, v2):
+                out.append({p1.name: v1, p2.name: v2})
+    for p in pars:
+        v = float(vals[p.name])
+        if unit_of(p) == "" and v != 1.0 and inside(p, 1.0 / v):
+            out.append({p.name: 1.0 / v})
+    return out
 
 
 def setup(ctx):
@@ -156,13 +231,17 @@ def cases(ctx):
     lo, hi = ctx.rot(FACTORS)
     for m in oriented_models():
         info = build.info(m)
-        vol = volume_pars(info)
+        vol = shape_pars(info)
         bases = ["default"] + (["activated"] if activated(info, ctx) else [])
         for base in bases:
             vals = base_values(info, ctx, base)
             tag = {} if base == "default" else {"base": base}
-            ok = lambda p, f: p.limits[0] <= vals[p.name] * f <= p.limits[1]
+            ok = lambda p, f: vals[p.name] != 0 and p.limits[0] <= vals[p.name] * f <= p.limits[1]
             out.append(dict({"model": m, "scaled": {}}, **tag))
+            # quick: inversions on the activated base (every effect switched on); thorough: on both bases
+            if base == "activated" or not ctx.quick:
+                for sets in inversions(info, vals, ctx.quick):
+                    out.append(dict({"model": m, "scaled": {}, "set": sets}, **tag))
             singles = (lo, hi) if ctx.quick else (lo, hi, lo * lo, hi * hi)
             for p in vol:
                 for f in singles:
@@ -204,12 +283,13 @@ def sphere_rule(n, revolution):
     return np.ascontiguousarray(dirs.reshape(-1, 3)), np.ascontiguousarray(w.reshape(-1))
 
 
-def sphere_average(sh, q, p, ladder):
+def sphere_average(sh, q, p, ladder, rtol=None):
     """
     Returns (avg[nq], converged[nq] bool, order[nq]) : ladder of composite rules, a q is converged when two
-    successive orders agree to REF_TOL (the finer value is returned).
+    successive orders agree to rtol[k] (default REF_TOL; the finer value is returned).
     """
     q = np.asarray(q, float)
+    rtol = np.full(len(q), REF_TOL) if rtol is None else np.asarray(rtol, float)
     revolution = sh.mode == 2
     avg = np.full(len(q), np.nan)
     conv = np.zeros(len(q), bool)
@@ -221,7 +301,7 @@ def sphere_average(sh, q, p, ladder):
         val, _ = sh.avg(q[todo], p, dirs, w)
         if prev is not None:
             with np.errstate(all="ignore"):
-                ok = np.abs(val - prev) <= REF_TOL * np.abs(val)
+                ok = np.abs(val - prev) <= rtol[todo] * np.abs(val)
             ok &= np.isfinite(val)
             avg[todo[ok]] = val[ok]
             conv[todo[ok]] = True
@@ -252,10 +332,13 @@ def run_case(case, ctx):
     pars = base_values(info, ctx, base)
     for k, f in case["scaled"].items():
         pars[k] = pars[k] * f
+    for k, v in (case.get("set") or {}).items():
+        pars[k] = float(v)
     pars["scale"], pars["background"] = 1.0, 0.0
     p = sh.pvec(pars)
     fk = {"model": name, "clause": "Iq-vs-average"}
-    shown = dict(activated(info, ctx) if base == "activated" else {}, **{k: pars[k] for k in case["scaled"]}) or "defaults"
+    moved = list(case["scaled"]) + list(case.get("set") or {})
+    shown = dict(activated(info, ctx) if base == "activated" else {}, **{k: pars[k] for k in moved}) or "defaults"
     if not sh.valid(p):
         return r.inconc("parameter-set-invalid")
     form, shell = sh.volumes(p)
@@ -263,7 +346,15 @@ def run_case(case, ctx):
         return r.inconc("volume-not-positive")
     size = form ** (1.0 / 3.0)
     tweak = ctx.rot(QTWEAK)
-    q = np.array([1e-3] + [x * tweak for x in QSIZE]) / size
+    qlist = [1e-3 / size] + [x * tweak / size for x in QSIZE]
+    qlabel = [None] + [{"q*size": x * tweak} for x in QSIZE]
+    for pp in shape_pars(info):
+        # a length that does not enter the volume (dnn) sets its own q scale: q in units of 2 pi / L
+        if pp.type != "volume" and "Ang" in unit_of(pp) and pars[pp.name] > 0:
+            for x in QLATTICE:
+                qlist.append(x * tweak * 2.0 * np.pi / pars[pp.name])
+                qlabel.append({"q*%s/2pi" % pp.name: x * tweak})
+    q = np.array(qlist)
     kernel = m.make_kernel([q.copy()])
     try:
         with np.errstate(all="ignore"):
@@ -275,23 +366,36 @@ def run_case(case, ctx):
         return r.fail("%s %s: 1-D evaluation at q=%s raised %r" % (name, shown, q, exc), dict(fk, clause="raises"))
     with np.errstate(all="ignore"):
         Ialt = sh_alt.Fq(q, p)[1] / shell if sh_alt is not None else I1
-        model_ok = np.abs(I1 - Ialt) <= MODEL_TOL * np.abs(I1)
-        # the reference is only needed where the model's own integration is converged
+        e_model = np.abs(I1 - Ialt) / np.abs(I1)
+        model_ok = e_model <= MODEL_TOL_COARSE
+        strict = e_model <= MODEL_TOL
+        tol_q = TOL + TABLE_GAIN * np.where(np.isfinite(e_model), e_model, 0.0)
+        # the reference is only needed where the model's own integration is converged (strictly or coarsely) - and
+        # where the model returns something non-finite, which is a violation if the average itself is finite
         ref, ref_ok, order = np.full(len(q), np.nan), np.zeros(len(q), bool), np.zeros(len(q), int)
-        use = np.flatnonzero(model_ok & np.isfinite(I1) & (I1 > 0))
+        use = np.flatnonzero((model_ok & (I1 > 0)) | ~np.isfinite(I1))
         if len(use):
-            ref[use], ref_ok[use], order[use] = sphere_average(sh, q[use], p, LADDER[ctx.tier])
+            rtol = np.where(strict[use], REF_TOL, 0.01 * tol_q[use])
+            ref[use], ref_ok[use], order[use] = sphere_average(sh, q[use], p, LADDER[ctx.tier], rtol)
     ref_I = ref / shell
     for k in range(1, len(q)):
-        sub = {"q": float(q[k]), "q*size": QSIZE[k - 1] * tweak}
+        sub = dict({"q": float(q[k])}, **qlabel[k])
         br = ["hollow"] if shell != form else []
         if base == "activated":
             br.append("activated-base")
             sv = [pars[pp.name] for pp in info.parameters.kernel_parameters if pp.type == "sld"]
             if len(sv) >= 2 and len(set(sv)) == len(sv):
                 br.append("all-SLDs-distinct")
-        if not np.isfinite(I1[k]) or I1[k] <= 0:
-            r.inconc("model-not-finite-positive")
+        if not np.isfinite(I1[k]):
+            if ref_ok[k] and np.isfinite(ref_I[k]):
+                r.fail("%s, %s, q=%.10g: call_kernel 1-D returns %r where the full-sphere average of the 2-D intensity / "
+                       "V_shell is %.12g" % (name, shown, q[k], float(I1[k]), ref_I[k]), dict(fk, clause="non-finite"),
+                       sub, trans=2, branches=br)
+            else:
+                r.inconc("model-and-reference-not-finite")
+            continue
+        if I1[k] <= 0:
+            r.inconc("model-not-positive")
             continue
         if not model_ok[k]:
             r.inconc("model-integration-not-converged", trans=2)
@@ -300,20 +404,29 @@ def run_case(case, ctx):
             r.inconc("reference-not-converged", trans=2)
             continue
         nt = bool(abs(I1[k] - I1[0]) > 0.01 * abs(I1[0]))
-        br.append("decidable")
+        br.append("decidable" if strict[k] else "decidable-coarse")
+        if nt:
+            br.append("nt:" + name)
+        if len(qlabel[k]) and "q*size" not in qlabel[k]:
+            br.append("lattice-q")
+        if case.get("set"):
+            br.append("inverted")
+        if any(pp.type != "volume" and pp.name in moved for pp in shape_pars(info)):
+            br.append("non-volume-moved")
         if galt:
             br.append("gauss-switch:%s" % galt)
-        if order[k] > LADDER[ctx.tier][1]:
+        if order[k] > 48:
             br.append("ladder-refined")
         detail = ("%s, %s, q=%.10g (q*size=%.3g): call_kernel 1-D (scale=1, background=0) = %.12g; full-sphere average of "
                   "%s / V_shell = %.12g (order %d per panel, converged to %.0e); relative difference %+.4g; "
-                  "model with gauss%s table = %.12g"
+                  "model with gauss%s table = %.12g (tables differ by %.1e, tolerance %.1e)"
                   % (name, shown, q[k], q[k] * size, I1[k], "Iqac" if sh.mode == 2 else "Iqabc", ref_I[k], order[k],
-                     REF_TOL, (I1[k] - ref_I[k]) / ref_I[k], galt, Ialt[k]))
+                     REF_TOL if strict[k] else 0.01 * tol_q[k], (I1[k] - ref_I[k]) / ref_I[k], galt, Ialt[k],
+                     e_model[k], tol_q[k]))
         # Agreement of the two Gauss tables to e does not bound the quadrature error by e for peaked integrands
         # (bcc_paracrystal radius=9.6, q*size=5.5: tables agree to 8e-7, both are 2.5e-5 from the converged
         # average), so the verdict tolerance grows with the observed table disagreement: 1e-5 + 40 e <= 5e-5.
-        tol_k = TOL + TABLE_GAIN * abs(I1[k] - Ialt[k]) / abs(I1[k])
+        tol_k = tol_q[k]
         if not abs(I1[k] - ref_I[k]) <= tol_k * abs(ref_I[k]):
             r.fail(detail, fk, sub, nt=nt, trans=2, branches=br)
             continue
@@ -343,3 +456,10 @@ def finish(ctx, report):
     report.require("all-SLDs-distinct", 300, "decidable points with every SLD (solvent included) different from every other")
     report.require("gauss-switch:150", 100, "model re-integrated with the 150-point table")
     report.require("gauss-switch:76", 1, "model with a native 150-point table re-integrated with 76 points")
+    report.require("inverted", 200, "decidable points on parameter sets with the order of two sizes inverted")
+    report.require("non-volume-moved", 30, "decidable points with a non-volume shape parameter (dnn, d_factor, sigma...) moved")
+    report.require("lattice-q", 10, "decidable points on the q menu in units of 2 pi / (non-volume length)")
+    report.require("decidable-coarse", 30, "points judged with the graded tolerance")
+    # every oriented model must really be judged: decidable points away from the Guinier plateau, per model
+    for m in oriented_models():
+        report.require("nt:" + m, NT_PER_MODEL[ctx.tier], "decidable non-trivial points of " + m)
